@@ -69,6 +69,23 @@ Theorem C02_kc_exact : forall p m s xs, kc_new XROps p (Fin m) = Ok s ->
   kc_outs XROps s (map Fin xs) = map (map Fin) (kc_real (kreal p) m xs).
 Proof. exact kc_exact. Qed.
 
+(* ---- the rounding component, PROVED for ExponentialMovingAverage on binary64 (Flocq): for every period below 2^53 and every
+        stream of up to 2^45 finite inputs with magnitudes bounded by M (2^-960 <= M <= 2^990), every output is finite and
+        within tau(t)*M of the real recursion with alpha = 2/(n+1) — the rounding of the smoothing factor included ---- *)
+From Coq Require Import Reals List Floats.
+From Flocq Require Import Core.
+From TA Require Import FloatInst Proofs.FloatErr Proofs.FloatSma Proofs.FloatEma.
+Theorem C02_ema_binary64_within_tau : forall p s xs M, ema_new FOps p = Ok s -> (p < 9007199254740992)%N ->
+  (bpow radix2 (-960) <= M)%R -> (M <= bpow radix2 990)%R -> Forall (okin M) xs -> (INR (length xs) * u <= / 256)%R ->
+  let outs := ema_outs FOps s xs in
+  let reals := ema_stream (kreal p) (map FR xs) in
+  length outs = length xs /\
+  forall j, (j < length xs)%nat ->
+    finF (nth j outs 0%float) /\
+    (Rabs (FR (nth j outs 0%float) - nth j reals 0) <=
+     (1 / 10 ^ 12 + 1 / 10 ^ 15 * (INR (j + 1) * R_sqrt.sqrt (INR (j + 1)))) * M)%R.
+Proof. exact ema_float_within_tau. Qed.
+
 From Coq Require Import List Floats.
 From TA Require Import Generic FloatInst XQ Run2 Par.Hom Par.Var Par.Oracle.
 (* the T2 oracle (exact rational run, evaluated by the checks) is the image of the exact real run these
